@@ -4,13 +4,13 @@ _SRC13 = ['props/C06/seq13.cc', 'harness/puppet13.cc', 'harness/wraps.c']
 TARGETS = [
     # random: (victim role, client-auth, cert type, HelloRetryRequest round) x 0..2 deviations x legal framing variations
     dict(name='c06_seq13', src=_SRC13, libs=['-lcrypto'], wraps=_WRAPS, env={'VERIF_DIR': '/verif'},
-         quick=dict(cases=1500, secs=40), thorough=dict(cases=150000, secs=900)),
-    # bounded-exhaustive: every single-step deviation of every legal trace (8 domain points, 1756 traces), default framing;
+         quick=dict(cases=1200, secs=40), thorough=dict(cases=150000, secs=900)),
+    # bounded-exhaustive: every single-step deviation of every legal trace (10 domain points: the 8 role x client-auth x cert points + the two client-auth server points with an unknown pre_shared_key offered), default framing;
     # (complete in both tiers: some state-machine mutants are only visible at one or two indices)
     dict(name='c06_seq13_singles', src=_SRC13, libs=['-lcrypto'], wraps=_WRAPS, env={'VERIF_DIR': '/verif'}, defs=['C06_ENUM'], enumerate=True,
          quick=dict(cases=0, secs=45, stride=1), thorough=dict(cases=0, secs=240, stride=1)),
 ]
-RULE = ('case = (victim role, client-auth on/off, RSA-PSS or ECDSA identities, with/without a HelloRetryRequest round, x25519 or secp256r1, client victim with/without own certificate) x 0-2 ops from '
+RULE = ('case = (victim role, client-auth on/off, RSA-PSS or ECDSA identities, with/without a HelloRetryRequest round, x25519 or secp256r1, server victim with/without a pre_shared_key offer it must decline (random identity + binder), client victim with/without own certificate) x 0-2 ops from '
         '{delete i, duplicate i, swap (i,i+1), substitute the handshake type byte (15 types), inject before i one of {ServerKeyExchange, ServerHelloDone, ClientKeyExchange, HelloRequest, KeyUpdate, '
         'EndOfEarlyData, NewSessionTicket, CertificateRequest, second ClientHello/ServerHello, EncryptedExtensions, Certificate, CertificateVerify, premature Finished, unknown type, message_hash, unparsable hello}, '
         'flip one bit of Finished / CertificateVerify (body or header), send message i in the clear, under the application keys or under unrelated keys, application data (inner type 23) under handshake / application keys / in '
@@ -18,8 +18,8 @@ RULE = ('case = (victim role, client-auth on/off, RSA-PSS or ECDSA identities, w
         'message sharing its record with the next one across a key change (Finished+NewSessionTicket, hello+rest of the flight in plaintext)} '
         'x legal framing (fragmentation >= 4 bytes, coalescing within an epoch, TLSInnerPlaintext padding, 0-2 valid CCS records at legal places, receive chunk size, record version 0x0301 on the first hello, 0-2 NewSessionTickets after completion); '
         'verdict by an explicit automaton over the items really sent (RFC 8446 2, 4.4, 5, 5.1, A.1/A.2); non-trivial = the first deviated item reached a live victim; '
-        'distinct by (role, client-auth, cert type, hrr, op, position) per applied op')
-ASSUMPTIONS = ['TLS 1.3: suite TLS_AES_128_GCM_SHA256 only; PSK resumption, 0-RTT and post-handshake client authentication are not generated (the puppet does not implement them); '
+        'distinct by (role, client-auth, cert type, hrr, psk-offer, op, position) per applied op')
+ASSUMPTIONS = ['TLS 1.3: suite TLS_AES_128_GCM_SHA256 only; accepted-PSK resumption, 0-RTT and post-handshake client authentication are not generated (the puppet does not implement them); '
                'KeyUpdate is only sent where it is illegal (MatrixSSL has no KeyUpdate support, see C10)',
                'TLS 1.3: a message with a legal type whose body was built for another type counts as "receiver may refuse or take" for EncryptedExtensions / CertificateRequest (no cryptographic check behind their parsers: strictness is C08/C10); '
                'the run follows whichever the victim does and the safety invariants stay on',
